@@ -46,8 +46,8 @@ ASSUMPTIONS = [
 
 def arms(tier):
     if tier == "thorough":
-        return [("synth", 12_000_000), ("wide", 1_500_000), ("real", 400_000)]
-    return [("synth", 420_000), ("wide", 40_000), ("real", 16_000)]
+        return [("synth", 20_000_000), ("wide", 2_000_000), ("real", 600_000)]
+    return [("synth", 900_000), ("wide", 80_000), ("real", 30_000)]
 
 
 def hist_slice(tier):
